@@ -1,5 +1,6 @@
 import PydapModel.Sexp
 import PydapModel.Stream
+import PydapModel.StreamTree
 namespace Pydap.Driver
 open Pydap Sexp Pydap.Stream
 
@@ -28,6 +29,24 @@ def stCol? : Sexp → Option Col
 def stCols? : Sexp → Option (List Col)
   | list xs => xs.mapM stCol?
   | _ => none
+
+partial def stTmpl? : Sexp → Option Tmpl
+  | atom "s" => some .str
+  | atom "b" => some .byte
+  | atom s => match s.toList with
+    | 'f' :: ds => (String.ofList ds).toNat?.map Tmpl.fixed
+    | _ => none
+  | list [atom "arr", w, n] => do pure (.arr (← asNat? w) (← asNat? n))
+  | list [atom "sarr", n] => do pure (.strArr (← asNat? n))
+  | list (atom "seq" :: cols) => do pure (.seq (← cols.mapM stTmpl?))
+  | list (atom "struct" :: fs) => do pure (.struct (← fs.mapM stTmpl?))
+  | _ => none
+
+def stToks (ts : List Tok) : Sexp :=
+  list (ts.map fun t => match t with
+    | .val b => atom (bytesToHex b)
+    | .rowStart => atom "r"
+    | .seqEnd => atom "e")
 
 def stHexList (bs : List Bytes) : Sexp := list (bs.map fun b => atom (bytesToHex b))
 
@@ -75,6 +94,18 @@ def handleStream : List Sexp → Option String
     match clientSeq cols cs with
     | .error e => pure ("(err " ++ stErr e ++ ")")
     | .ok rows => pure (toString (list [atom "ok", stRows rows]))
+  | [atom "st-data", list vars, d] => do
+    let vars ← vars.mapM stTmpl?
+    let d ← asBytes? d
+    match unpackData vars d with
+    | .error e => pure ("(err " ++ stErr e ++ ")")
+    | .ok x => pure (toString (list [atom "ok", stToks x.1, atom (bytesToHex x.2)]))
+  | [atom "st-data-stream", list vars, cs] => do
+    let vars ← vars.mapM stTmpl?
+    let cs ← stBytesList? cs
+    match unpackDataStream vars ⟨cs, []⟩ with
+    | .error e => pure ("(err " ++ stErr e ++ ")")
+    | .ok x => pure (toString (list [atom "ok", stToks x.1, atom (bytesToHex x.2.abs)]))
   | [atom "st-split", d] => do
     let d ← asBytes? d
     match splitData d with
